@@ -2,17 +2,22 @@
 
 Runs inside a multiprocessing pool (chdir is process-global).  Returns plain dicts; the parent owns the `Run`.
 Only public observations are used: `griffe.GriffeLoader(...).load(...)`, member look-ups, and the attributes themselves.
+A case fixes layout, search-path form and request; it is loaded afresh under every cwd position of the case: under the
+first one every attribute of every object is compared, under the others the cwd-dependent one (relative_filepath).
 """
 from __future__ import annotations
 
 import os
+import shutil
 import tempfile
+import traceback
 from pathlib import Path
 
 from gverif.common import ensure_repo, scratch_root
 from gverif.props.x03_fs import ATTR, FIELDS, SPN, Layout, build_api, dotted, purge_imports, so_source, to_real, to_spec
 
 PRED = {"init", "package", "subpackage", "ns", "nssub"}
+CWD_ORDER = ["w", "root", "sp1", "sp2", "other", "in", "deep"]
 
 
 def observe(root: str, obj, field: str):
@@ -42,29 +47,38 @@ def path_of(obj, attr: str) -> str:
 class Checker:
     def __init__(self, root: str, case: dict, ident: dict):
         self.root, self.case, self.ident = root, case, ident
-        self.out = {"violations": [], "drift": 0, "checked": 0, "kinds": set(), "structure": None}
+        self.out = {"violations": [], "drift": 0, "checked": 0, "kinds": set(), "structure": None, "loads": 0}
         self.viol = {(tuple(v["node"]), v["who"], v["f"]) for v in case["viol"]}
         self.causes = sorted(case["causes"])
+        self.cwd = None       # cwd position being observed
+        self.full = True      # first position: every attribute; later ones: relative_filepath only
 
     def bad(self, clause: str, who: str, predicted: bool, what: str):
         sig = {"fam": self.case["fam"], "top": self.case["top"], "clause": clause, "who": who, "causes": self.causes,
                "predicted": predicted, "form": self.case["form"], "req": self.case["req"]}
         if len(self.out["violations"]) < 20:
-            self.out["violations"].append({"sig": sig, "what": what, "case": self.ident})
+            self.out["violations"].append({"sig": sig, "what": f"{what} [cwd {self.cwd}={self.case['cwds'][self.cwd]}]", "case": self.ident})
 
-    def attrs(self, obj, impl: dict, ref: dict, node: list, who: str, label: str, model_who: str | None = None):
-        """Every file-derived attribute of `obj` against the acceptable set (Ref) and the model's value (Impl)."""
-        for f in FIELDS:
+    def attrs(self, obj, impl: dict, ref: dict, refrf: dict, node: list, who: str, label: str, model_who: str | None = None):
+        """File-derived attributes of `obj` against the acceptable set (Ref) and the model's value (Impl)."""
+        for f in FIELDS if self.full else ("rf",):
             real = observe(self.root, obj, f)
-            accept = ref[f] if f in ref else [impl[f]]
+            if f == "rf":
+                want = impl["rf"][self.cwd]
+                accept = refrf.get(self.cwd, [want])
+            else:
+                want = impl[f]
+                accept = ref.get(f, [want])
             self.out["checked"] += 1
             if real not in accept:
-                predicted = (tuple(node), model_who or who, f) in self.viol and real == impl[f]
-                self.bad(f, who, predicted, f"{label}.{ATTR[f]} = {real} not in {accept} (cwd {self.case['cwdpath']})")
-            elif real != impl[f]:
+                predicted = (tuple(node), model_who or who, f) in self.viol and real == want
+                self.bad(f, who, predicted, f"{label}.{ATTR[f]} = {real} not in {accept}")
+            elif real != want:
                 self.out["drift"] += 1
 
     def names(self, obj, who: str, label: str, path: str, canonical: str, module: str, package: str):
+        if not self.full:
+            return
         got = {"path": path_of(obj, "path"), "canonical_path": path_of(obj, "canonical_path"),
                "module": path_of(obj, "module"), "package": path_of(obj, "package")}
         want = {"path": path, "canonical_path": canonical, "module": module, "package": package}
@@ -76,7 +90,8 @@ class Checker:
     def tree(self, top):
         case = self.case
         topname = case["obs"][0]["name"][0]
-        nodes = {tuple(o["name"]): o for o in case["obs"]}
+        # an empty TLA+ function prints as the empty sequence
+        nodes = {tuple(o["name"]): {k: ({} if v == [] and k in ("mr", "mrf", "oi", "or", "orf") else v) for k, v in o.items()} for o in case["obs"]}
         real_mods = {}
 
         def walk(mod, name):
@@ -93,19 +108,21 @@ class Checker:
             if mod is None:
                 continue
             d = dotted(name)
-            self.attrs(mod, o["mi"], o["mr"], o["name"], "module", d)
+            mi = o["mi"]
+            self.attrs(mod, mi, o["mr"], o["mrf"], o["name"], "module", d)
             self.names(mod, "module", d, d, d, d, topname)
-            self.out["kinds"].add("module:" + ("list" if o["mi"]["fp"]["t"] == "list" else o["mi"]["fp"]["t"]))
-            if not o["oi"]:
+            self.out["kinds"].add("module:" + mi["fp"]["t"])
+            if not o["holder"]:
                 continue
+            oi = {**mi, **o["oi"]}
 
             def objects(parent, ppath):
                 for mname, m in parent.members.items():
                     if m.is_alias or m.is_module:
                         continue
                     opath = f"{ppath}.{mname}"
-                    self.attrs(m, o["oi"], o["or"], o["name"], "object", opath)
-                    self.names(m, "object", opath, opath, opath, d, topname)
+                    self.attrs(m, oi, o["or"], o["orf"], o["name"], "object", opath)  # noqa: B023
+                    self.names(m, "object", opath, opath, opath, d, topname)  # noqa: B023
                     self.out["kinds"].add(m.kind.value)
                     objects(m, opath)
 
@@ -122,10 +139,10 @@ class Checker:
                 continue
             who = "alias-chain" if a["via"] else "alias"
             if a["obj"]:
-                self.attrs(al, tgt["oi"], tgt["or"], tgt["name"], who, label, "object")
+                self.attrs(al, {**tgt["mi"], **tgt["oi"]}, tgt["or"], tgt["orf"], tgt["name"], who, label, "object")
                 canonical = dotted(a["tgt"]) + "." + a["obj"]
             else:
-                self.attrs(al, tgt["mi"], tgt["mr"], tgt["name"], who, label, "module")
+                self.attrs(al, tgt["mi"], tgt["mr"], tgt["mrf"], tgt["name"], who, label, "module")
                 canonical = dotted(a["tgt"])
             self.names(al, who, label, label, canonical, dotted(a["tgt"]), topname)
             self.out["kinds"].add(who + (":class" if a["obj"] else ":module"))
@@ -135,43 +152,54 @@ class Checker:
             if al is None or not al.is_alias:
                 continue
             label = f"{dotted(dd['at'])}.{dd['name']}"
-            err = {f: (dd["err"] if f in PRED else {"t": "err", "v": [[dd["err"]]]}) for f in FIELDS}
-            self.attrs(al, err, {}, dd["at"], "alias-dangling", label)
-            e = "!" + dd["err"]
-            self.names(al, "alias-dangling", label, label, e, e, e)
+            got = {ATTR[f]: observe(self.root, al, f) for f in (FIELDS if self.full else ("rf",))}
+            got = {k: (v if isinstance(v, str) else v["v"][0][0] if v["t"] == "err" else str(v)) for k, v in got.items()}
+            if self.full:
+                got.update({k: path_of(al, k).lstrip("!") for k in ("canonical_path", "module", "package")})
+                if path_of(al, "path") != label:
+                    self.bad("path", "alias-dangling", False, f"{label}.path = {path_of(al, 'path')!r}")
+            self.out["checked"] += len(got)
+            wrong = {k: v for k, v in got.items() if v != dd["err"]}
+            if wrong:
+                predicted = dd["ierr"][self.cwd] != dd["err"] and set(wrong.values()) == {dd["ierr"][self.cwd]}
+                self.bad("error", "alias-dangling", predicted, f"{label} (target {dd['target']}): {wrong}, expected {dd['err']}")
+            elif dd["ierr"][self.cwd] != dd["err"]:
+                self.out["drift"] += 1
             self.out["kinds"].add("alias-dangling")
+
+
+def load_case(griffe, layout, root: str, case: dict, cwd: Path):
+    if case["fam"] == "api":
+        return build_api(griffe, root, case)
+    if case["fam"] == "builtin":
+        return griffe.GriffeLoader(search_paths=layout.search_paths("abs", cwd), allow_inspection=True).load("itertools")
+    if case["req"] == "path":
+        sp = [str(Path(root, "o"))]
+        spec = Path(root, "w", SPN[case["kids"][0]["i"] - 1], "pkg")
+    else:
+        sp = layout.search_paths(case["form"], cwd)
+        spec = "pkg"
+    loader = griffe.GriffeLoader(search_paths=sp, allow_inspection=layout.has_so)
+    try:
+        return loader.load(spec, find_stubs_package=case["fam"] == "stubs")
+    finally:
+        if layout.has_so:
+            purge_imports("pkg")
 
 
 def run_case(griffe, layout, root: str, case: dict, ident: dict) -> dict:
     chk = Checker(root, case, ident)
-    cwd = to_real(root, case["cwdpath"])
-    os.chdir(cwd)
-    try:
-        if case["fam"] == "api":
-            top = build_api(griffe, root, case)
-        elif case["fam"] == "builtin":
-            top = griffe.GriffeLoader(search_paths=layout.search_paths("abs", cwd), allow_inspection=True).load("itertools")
-        else:
-            if case["req"] == "path":
-                sp = [str(Path(root, "o"))]
-                i = case["kids"][0]["i"]
-                spec = Path(root, "w", SPN[i - 1], "pkg")
-            else:
-                sp = layout.search_paths(case["form"], cwd)
-                spec = "pkg"
-            loader = griffe.GriffeLoader(search_paths=sp, allow_inspection=layout.has_so)
-            try:
-                top = loader.load(spec, find_stubs_package=case["fam"] == "stubs")
-            finally:
-                if layout.has_so:
-                    purge_imports("pkg")
-        chk.tree(top)
-    except Exception as exc:  # noqa: BLE001
-        import traceback  # noqa: PLC0415
-
-        chk.bad("total", "load", False, f"loading / walking raised {exc!r}: {traceback.format_exc()[-600:]}")
-    finally:
-        os.chdir(root)
+    for n, c in enumerate(sorted(case["cwds"], key=CWD_ORDER.index)):
+        chk.cwd, chk.full = c, n == 0
+        cwd = to_real(root, case["cwds"][c])
+        os.chdir(cwd)
+        try:
+            chk.tree(load_case(griffe, layout, root, case, cwd))
+            chk.out["loads"] += 1
+        except Exception as exc:  # noqa: BLE001
+            chk.bad("total", "load", False, f"loading / walking raised {exc!r}: {traceback.format_exc()[-600:]}")
+        finally:
+            os.chdir(root)
     chk.out["kinds"] = sorted(chk.out["kinds"])
     return chk.out
 
@@ -183,17 +211,15 @@ def run_group(group: list) -> list:
     if any(f["r"][-1] == "_bisect.so" for f in first["disk"]) and so_source() is None:
         return [(i, {"skipped": "no extension module file to copy"}) for i, _ in group]
     results = []
-    root = tempfile.mkdtemp(prefix="x03-", dir=scratch_root())
+    root = os.path.realpath(tempfile.mkdtemp(prefix="x03-", dir=scratch_root()))
     try:
-        root = os.path.realpath(root)
         layout = Layout(root, first)
         for _, case in group:
-            to_real(root, case["cwdpath"]).mkdir(parents=True, exist_ok=True)
+            for p in case["cwds"].values():
+                to_real(root, p).mkdir(parents=True, exist_ok=True)
         for i, case in group:
             results.append((i, run_case(griffe, layout, root, case, {"index": i, "key": case_key(case)})))
     finally:
-        import shutil  # noqa: PLC0415
-
         os.chdir("/")
         shutil.rmtree(root, ignore_errors=True)
     return results
@@ -205,4 +231,4 @@ def layout_key(c: dict):
 
 
 def case_key(c: dict):
-    return [*layout_key(c), c["cwd"], c["form"], c["req"]]
+    return [*layout_key(c), c["form"], c["req"]]
